@@ -4,7 +4,7 @@ import json, os, shutil, sys
 prop, wt, m, name, first, what, needs, caught = sys.argv[1:9]
 d = f'/verif/seeded/{name}'
 os.makedirs(d, exist_ok=True)
-src = f'/tmp/mut/{wt}/_out/{m}'
+src = f'/tmp/mut/out/{wt}/{m}' if os.path.isdir(f'/tmp/mut/out/{wt}/{m}') else f'/tmp/mut/{wt}/_out/{m}'
 for f in ('patch.diff', 'demo.py', 'notes.txt'):
     if os.path.exists(f'{src}/{f}'):
         shutil.copy(f'{src}/{f}', d)
